@@ -80,8 +80,10 @@ def run(res, replay=None):
                 s['recombination_rate'] = 0.0
             if i == 5:
                 s['recombination_rate'] = rng.choice([0.5, 1.0])
-                pp = [p for p, _ in s['n_items']]
-                s['n_items'] = [[pp[0], 2], [pp[1], 1]]
+                pp = sorted(p for p, _ in s['n_items'])
+                s['n_items'] = [[pp[1], 2], [pp[0], 1]]       # listed in NON-alphabetical order, with asymmetric migration
+                s['migration_rates'] = {f'{pp[0]}>{pp[1]}': {'0.0': 0.25}, f'{pp[1]}>{pp[0]}': {'0.0': 1.5}}
+                s['pop_sizes'] = {pp[1]: {'0.0': 1.0}, pp[0]: {'0.0': 2.0}}
             specs.append(s)
     items = [dict(spec=s, lc=True, ops=build_ops(rng, s)) for s in specs]
     results = N.run_items(res, 'C06', 'twolocus', items, what='two-locus statistic differs from the ARG value (model)')
